@@ -120,12 +120,23 @@ def run_valid(case, ctx):
         ctx.check(got == want, "extra-values", lambda: f"extra {name}: {got} != {want}")
     got_c = [c.rstrip("\r\n") for c in comments]
     ctx.check(got_c == doc["comments"], "comments", lambda: f"{got_c!r} != {doc['comments']!r}")
-    ign = [x for x in w if "ignored" in str(x.message)]
     if doc["unrequested"]:
-        ctx.check(len(ign) >= 1, "extra-fields-warning", "unrequested fields but no warning")
-    else:
-        ctx.check(len(ign) == 0, "spurious-extra-fields-warning",
-                  lambda: f"warning without extra fields: {ign[0].message}")
+        # "fields beyond the requested columns only cause a warning": some warning (whatever its category or wording)
+        # that the same text without those fields does not draw
+        import re
+
+        keep = 7 + doc["n_req"]
+        lines1 = list(doc["lines"])
+        for r in rows:
+            lines1[r["line"]] = " ".join(lines1[r["line"]].split()[:keep])
+        src1, kw1 = _source(gen_swc.render(dict(doc, lines=lines1)), case["kind"], case["encoding"], ctx, "control.swc")
+        with warnings.catch_warnings(record=True) as w1:
+            warnings.simplefilter("always")
+            ctx.lib("read_swc[control without the extra fields]", read_swc, src1, extra_cols=extra_cols, reset_index=case["reset_index"], **kw1)
+        norm = lambda m: re.sub(r"0x[0-9a-fA-F]+", "0x", str(m)).replace("control.swc", "f.swc")  # noqa
+        control = {norm(x.message) for x in w1}
+        ctx.check(any(norm(x.message) not in control for x in w), "extra-fields-warning",
+                  lambda: f"unrequested fields but no warning of their own: {[str(x.message) for x in w]}")
 
     # the Tree front end on tables it accepts: ids consecutive, root first
     if doc["family"] == "default":
